@@ -13,7 +13,9 @@ lemma of the base model, the `cancel` case is new).
 
 **Safety is untouched.**  `wireOnlySubmitted`, `onceInOrderWithoutFault` (which has no liveness half: it only says "at most
 once each, in acceptance order, in histories without loss / reset / failed write"), `dropsJustified`, the accounting
-invariant and the queue bound hold verbatim for the extended system.  A frame is handed to the transport *before* the
+invariant (with the alternative "accepted before the socket was closed and opened again" that /repo 3897b77 made
+necessary in the base system as well, see `C01X_accounted_strong`) and the queue bound hold for the extended system as they
+do for the base system.  A frame is handed to the transport *before* the
 `await drain()` at which the caller can be cancelled, so the cancelled caller's message has its `wire` event (it was
 written, once); what is cancelled is only the rest of that task's drain loop and, for a task that was in the middle of
 `reset_connection()`, the rest of the reset.  The entry the cancelled caller was holding is not put back
@@ -38,6 +40,7 @@ open PyAirtouch.Lemmas.SockHeal (Healed BReach Stuck stuck_never_heals healed_of
 open PyAirtouch.Lemmas.SockConn (closing)
 open PyAirtouch.Lemmas.SockIdle (curLive promising not_promising_iff)
 open PyAirtouch.Lemmas.SockXIdle (idle_invariantX durable)
+open PyAirtouch.Lemmas.SockLoss (reopenedSince)
 
 /-! ### the extension is conservative and a cancellation touches nothing of the socket -/
 
@@ -127,11 +130,49 @@ theorem C01X_in_flight_attempted {s : Sys} (h : ReachableWFX s) {k : Task} (hk :
   ((tinv_reachableWFX h).flying x (mem_flOf_iff.2 ⟨k, hk, w, r, hpc⟩)).2
 
 /-- accounting, strong form, with cancellations: every accepted message is still queued, or the trace has a write
-    attempt or a drop for it -/
+    attempt or a drop for it, or the socket was closed and opened again after its acceptance (`reopenedSince`: the trace
+    reads `… accept sid … apiClose … apiOpen …`).
+
+    The last alternative is new with /repo 3897b77: `open_socket()` on a socket that is not open clears the send queue and
+    logs nothing, so a message of the earlier session that was still queued disappears without a write attempt and
+    without a `qdrop`; the three-way statement is false since then (`Props.C01.C01_reopen_discards_silently`; the same
+    history is a history of the extended system, `C01X_extends_base`).  `C01X_accounted_current_session` is the old
+    statement for the messages it is still true of. -/
 theorem C01X_accounted_strong {s : Sys} (h : ReachableWFX s) {sid t e r : Nat} {ok : Bool}
     (hmem : Ev.accept sid t e r ok ∈ s.core.trace) :
-    (∃ x ∈ s.core.queue, x.sid = sid) ∨ 1 ≤ writeAttempts s.core.trace sid ∨ dropped s.core.trace sid = true :=
+    (∃ x ∈ s.core.queue, x.sid = sid) ∨ 1 ≤ writeAttempts s.core.trace sid ∨ dropped s.core.trace sid = true ∨
+      reopenedSince s.core.trace sid = true :=
   (tinv_reachableWFX h).acct sid t e r ok hmem
+
+/-- the three-way statement as it was before /repo 3897b77, for messages accepted in the session that is running (or in
+    the last one, if the socket has not been opened again) -/
+theorem C01X_accounted_current_session {s : Sys} (h : ReachableWFX s) {sid t e r : Nat} {ok : Bool}
+    (hmem : Ev.accept sid t e r ok ∈ s.core.trace) (hcur : reopenedSince s.core.trace sid = false) :
+    (∃ x ∈ s.core.queue, x.sid = sid) ∨ 1 ≤ writeAttempts s.core.trace sid ∨ dropped s.core.trace sid = true := by
+  rcases C01X_accounted_strong h hmem with h1 | h1 | h1 | h1
+  · exact .inl h1
+  · exact .inr (.inl h1)
+  · exact .inr (.inr h1)
+  · rw [hcur] at h1; cases h1
+
+/-- … in particular in every history without `close()` -/
+theorem C01X_accounted_no_close {s : Sys} (h : ReachableWFX s) {sid t e r : Nat} {ok : Bool}
+    (hmem : Ev.accept sid t e r ok ∈ s.core.trace) (hnc : hasClose s.core.trace = false) :
+    (∃ x ∈ s.core.queue, x.sid = sid) ∨ 1 ≤ writeAttempts s.core.trace sid ∨ dropped s.core.trace sid = true :=
+  C01X_accounted_current_session h hmem (Lemmas.SockLoss.reopenedSince_of_noClose hnc sid)
+
+/-- the witness, as a history of the extended system, with a cancellation in it: `send(1)` blocks in `drain()` on a
+    transport that stopped accepting data, the peer resets the connection, `send(2)` is accepted and stays queued (the
+    connection is going down); the caller of `send(1)` is cancelled; `close()`; `open_socket()`: message 2 is gone without
+    a write attempt or a drop -/
+example : ∃ s, ReachableWFX s ∧ acceptedSids s.core.trace = [1, 2] ∧ s.core.queue = [] ∧
+    writeAttempts s.core.trace 2 = 0 ∧ dropped s.core.trace 2 = false ∧ reopenedSince s.core.trace 2 = true ∧
+    (∀ k ∈ s.tasks, k.pc = .finished ∨ k.pc = .connStart) :=
+  ⟨_, ⟨[.base .apiOpen, .base (.run 1 .go), .base (.run 1 .openOk), .base (.run 1 .go), .base (.run 2 .go),
+        .base (.envPause 0 true), .base (.apiSend 1 2 240 true), .base (.envLost 0), .base (.apiSend 2 2 240 true), .cancel 3,
+        .base .apiClose, .base (.run 5 .go), .base (.envLostRan 0), .base (.run 5 .go), .base (.run 5 .go),
+        .base .apiOpen], by decide, rfl⟩,
+    by decide, by decide, by decide, by decide, by decide, by decide⟩
 
 /-- the monitor `noSilentLoss` on the extended model's own trace -/
 theorem C01X_no_silent_loss_unmarked {s : Sys} (h : ReachableWFX s) : noSilentLoss s.core.trace = true := by
